@@ -52,8 +52,13 @@ def classify(kind, case):
         return "flush-not-at-pattern-boundary"
     if kind == "scases":
         return "header-only-classification"
-    if case.get("hop_leak"):
-        return ("handler-" if kind == "xcases" else "") + "hop-by-hop-field-reaches-client"
+    pre = "handler-" if kind == "xcases" else ""
+    if kind == "xcases" and case.get("only304ct"):
+        return "handler-304-content-type-dropped"
+    why = {2: "status-or-reason-phrase-changed", 3: "end-to-end-field-missing-or-changed", 4: "hop-by-hop-field-reaches-client",
+           5: "body-differs", 6: "declared-trailers-differ"}.get(case.get("why"))
+    if why:
+        return pre + why
     if kind == "xcases" and case.get("only304ct"):
         return "handler-304-content-type-dropped"
     if kind in ("ecases", "tcases", "xcases"):
@@ -72,7 +77,7 @@ def classify(kind, case):
             return "http10-client-chunked-origin"
         if rs.get("Gzip") and "gzip" not in rq.get("AcceptE", ""):
             return "gzip-solicited-by-proxy"
-        return "%s:%s/%s/%s/%s" % ("handler-e2e" if kind == "xcases" else "e2e", rq["Method"], rq["Proto"], rs["Framing"], rs["Code"])
+        return "%sresponse-not-delimited:%s/%s/%s/%s" % (pre, rq["Method"], rq["Proto"], rs["Framing"], rs["Code"])
     return kind
 
 
@@ -142,19 +147,19 @@ def run(ctx):
                     cache[kind] = load_jsonl(os.path.join(ctx.work, kind + ".jsonl"))
                 size = meta.get("shard_sizes", {}).get(kind, meta["shard_size"])
                 base = idx * size
-                absent_bad = set(ctx.parse_nlist(r.get("A")) or [])
+                why = ctx.parse_nlist(r.get("A")) or []      # per case: which part of the oracle fails first (Check.ecase_why)
                 for ident, acc in (("M", model_bad), ("P", prop_bad)):
                     for i in (ctx.parse_nlist(r.get(ident)) or []):
                         src = cache[kind]
                         case = src[base + i] if base + i < len(src) else {"index": base + i}
-                        if ident == "P" and i in absent_bad:
-                            case = dict(case, hop_leak=True)
+                        if ident == "P" and i < len(why):
+                            case = dict(case, why=why[i])
                         acc.append((kind, case))
 
     # http.Handler variant: a failure that disappears when Content-Type on 304 replies is not expected
     # (ycases = the same connections, relaxed) is Go's http.Server dropping that field, a known finding
     def strip(c):
-        return {k: v for k, v in c.items() if k not in ("hop_leak", "only304ct")}
+        return {k: v for k, v in c.items() if k not in ("why", "only304ct")}
     relaxed_bad = set(json.dumps(strip(c), sort_keys=True) for k, c in prop_bad if k == "ycases")
     prop_bad = [(k, c) for k, c in prop_bad if k != "ycases"]
     prop_bad = [(k, dict(c, only304ct=True)) if k == "xcases" and json.dumps(strip(c), sort_keys=True) not in relaxed_bad else (k, c)
